@@ -231,7 +231,7 @@ String File::directory() const
 
 Long File::size() const
 {
-	if(!_info)
+	if(!_info || _file) // while the file is open (it may be growing through this object) always ask the file system
 		_info = getFileInfo(_path);
 	return _info.size;
 }
